@@ -733,3 +733,8 @@ def finish(ctx):
   ctx.need("lag_matrix_compared", 100)
   ctx.need("toeplitz_compared", 50)
   ctx.need("trailing_zero_coefficients_dropped", 10)
+
+
+# extension family (second round of seeded changes), see props/c10_x.py
+from props import c10_x as _x, ext as _ext
+_ext.install(globals(), _x)
